@@ -1,5 +1,6 @@
 import AwsVerif.Gen.Math
 import AwsVerif.Model.MathAsm
+import AwsVerif.Gen.MathAsmShapes
 import AwsVerif.Proofs.C16.Bits
 import AwsVerif.Proofs.C16.Varargs
 /-!
@@ -244,6 +245,19 @@ theorem asm_add_u32_saturating (a b : Nat) : MathAsm.aws_add_u32_saturating a b 
   by_cases h : a + b < 2^32
   · simp [h, Nat.mod_eq_of_lt h] <;> omega
   · simp [h] <;> omega
+
+/-! ### the hand model is tied to the text of the assembly
+
+`Gen.MathAsmShapes.asmShapes` is re-extracted from `math.gcc_x64_asm.inl` on every run. -/
+
+/-- every asm statement (template, operand constraints and expressions, clobbers, surrounding C) is literally the one
+the hand model `Model/MathAsm.lean` was written against -/
+theorem asm_shapes_as_modelled : Gen.MathAsmShapes.asmShapes = MathAsm.expectedShapes := rfl
+
+/-- every register a template writes — named literally (`%%eax`) or implicitly (`mul` → `rdx:rax`) — is pinned by an
+output operand whose constraint is exactly that register, or is listed as clobbered: the saturation `mov` really
+targets the operand that is returned, and no live register is overwritten behind the compiler's back -/
+theorem asm_registers_pinned : ∀ s ∈ Gen.MathAsmShapes.asmShapes, MathAsm.regsPinned s.2 = true := by decide
 
 /-! ## every implementation variant gives identical answers -/
 
